@@ -31,6 +31,7 @@ type exprCase struct {
 	Warm       string              `json:"warm,omitempty"`
 	WarmNames  map[string]string   `json:"warmNames,omitempty"`
 	WarmValues map[string]model.AV `json:"warmValues,omitempty"`
+	WarmItem   model.Item          `json:"warmItem,omitempty"` // the item the warm expression is evaluated on (default: Item)
 
 	lang *interpreter.Language // one instance per case (nil: a fresh one per call)
 }
@@ -72,6 +73,11 @@ func richItem(rt *rapid.T, o gen.AVOpts) model.Item {
 			}),
 			"b": model.Map(map[string]model.AV{"k": leaf("deepBK"), "c": model.Map(map[string]model.AV{"k": leaf("deepBCK")})}),
 		})
+	}
+	// a longer list: several actions of one update may address its elements
+	if rapid.IntRange(0, 2).Draw(rt, "has_ll") == 1 {
+		it["ll"] = model.List(model.Str(gen.Str(o.ASCII).Draw(rt, "ll0")), model.Num("1"), model.Map(map[string]model.AV{"k": model.Num("2")}),
+			model.Str("d"), model.List(model.Str("e")), model.StrSet("x", "y"))
 	}
 	add("s", func() model.AV { return model.Str(gen.Str(o.ASCII).Draw(rt, "s")) })
 	add("s2", func() model.AV { return model.Str(gen.Str(o.ASCII).Draw(rt, "s2")) })
@@ -269,7 +275,11 @@ func runC06(c exprCase, info *c06Info) *failure {
 	beforeItem, beforeVals := model.CanonItem(c.Item), model.CanonItem(c.Values)
 	c.lang = &interpreter.Language{}
 	if c.Warm != "" {
-		if _, wt, wrtp := implMatch(exprCase{Expr: c.Warm, Item: model.CloneItem(c.Item), Names: c.WarmNames, Values: c.WarmValues, lang: c.lang}); wrtp {
+		wi := c.Item
+		if c.WarmItem != nil {
+			wi = c.WarmItem
+		}
+		if _, wt, wrtp := implMatch(exprCase{Expr: c.Warm, Item: model.CloneItem(wi), Names: c.WarmNames, Values: c.WarmValues, lang: c.lang}); wrtp {
 			return newFail("runtime panic", "Match(%q): %s", c.Warm, wt)
 		}
 	}
@@ -353,7 +363,7 @@ func c06API(c exprCase, want model.Outcome) *failure {
 	return nil
 }
 
-const ruleC06 = "rapid: (condition AST, item, bindings) - ASTs up to depth 6 over comparators, BETWEEN, IN, AND/OR/NOT, parentheses, document paths (nested members, list elements, elements past the end, missing parents), #name/:value placeholders and the six functions; operands drawn from an item holding (most of) the ten types so that ~half of the atoms are well typed and present, the rest type mismatches, absences, NULL-typed attributes; rendered with random extra whitespace. In an eighth of the cases a twin that differs only in the letter case of one identifier, in another eighth the same text with values of the same shape and other contents, is evaluated first on the same interpreter instance. Oracle: the reference evaluator's outcome set vs interpreter.Language.Match called directly; plus purity of item and bindings, commutation of AND/OR operands, and for a tenth of the cases the same condition as Scan filter and PutItem condition through both SDK clients. Non-trivial = >= 2 atoms and a singleton model outcome that flips when the item is replaced by the empty item; distinct = hash of (expression, item, bindings)."
+const ruleC06 = "rapid: (condition AST, item, bindings) - ASTs up to depth 6 over comparators, BETWEEN, IN, AND/OR/NOT, parentheses, document paths (nested members, list elements, elements past the end, missing parents), #name/:value placeholders and the six functions; operands drawn from an item holding (most of) the ten types so that ~half of the atoms are well typed and present, the rest type mismatches, absences, NULL-typed attributes; rendered with random extra whitespace. In an eighth of the cases a twin that differs only in the letter case of one identifier, in another eighth the same text with values of the same shape and other contents, in another eighth an expression that is rejected on another, richer item, is evaluated first on the same interpreter instance. Oracle: the reference evaluator's outcome set vs interpreter.Language.Match called directly; plus purity of item and bindings, commutation of AND/OR operands, and for a tenth of the cases the same condition as Scan filter and PutItem condition through both SDK clients. Non-trivial = >= 2 atoms and a singleton model outcome that flips when the item is replaced by the empty item; distinct = hash of (expression, item, bindings)."
 
 // TestC06 decides property C06.
 func TestC06(t *testing.T) {
@@ -389,6 +399,18 @@ func propC06(rt *rapid.T) {
 				ec.Warm, ec.WarmNames, ec.WarmValues = tw, n2, v2
 				st.Class("case-twin-evaluated-first")
 			}
+		case 6, 12:
+			// an evaluation that is rejected after another, richer item was loaded, first
+			ec.Warm = rapid.SampledFrom([]string{"attribute_type(s, :badtype)", "nosuchfn(s) = :badtype", "begins_with(n, :badtype) AND size(t) > :badtype"}).Draw(rt, "rejectedFirst")
+			ec.WarmValues = map[string]model.AV{":badtype": model.Str("nosuchtype")}
+			ec.WarmItem = richItem(rt, o)
+			// ... holding every name the expression may look for in vain
+			for _, ghost := range []string{"zz", "missing", "nope", "nokey", "k", "s", "n", "t"} {
+				if _, ok := ec.WarmItem[ghost]; !ok {
+					ec.WarmItem[ghost] = model.Str("left behind")
+				}
+			}
+			st.Class("rejected-evaluation-on-another-item-first")
 		case 9, 10:
 			if len(ec.Values) > 0 {
 				// the same text first with values of the same shape and other contents
